@@ -341,6 +341,13 @@ class FlatSet : private Compare {
 
   template <class C2, typename std::enable_if<!std::is_same<Compare, C2>::value, bool>::type = true>
   void merge(FlatSet<T, C2, Alloc, VecType> &o) {
+    merge_other_order(o);
+  }
+
+ private:
+  /// Merge from a set whose elements are not necessarily sorted according to our comparator
+  template <class OtherSet>
+  void merge_other_order(OtherSet &o) {
     for (miterator oit = o.mbegin(); oit != o.mend();) {
       miterator lbIt = std::lower_bound(mbegin(), mend(), *oit, compRef());
       if (lbIt == mend()) {
@@ -356,7 +363,13 @@ class FlatSet : private Compare {
     }
   }
 
+ public:
   void merge(FlatSet &o) {
+    if (!std::is_empty<Compare>::value) {
+      // Two comparator objects of same type can hold different states, and then order the elements differently
+      merge_other_order(o);
+      return;
+    }
     // Do not use std::inplace_merge to avoid allocating memory if not needed
     miterator first1 = mbegin(), last1 = mend();
     miterator first2 = o.mbegin(), last2 = o.mend();
